@@ -373,7 +373,50 @@ def _designed_case(repo, it, S, spec):
     return n, out
 
 
+def _ambiguous_case(repo, it, S, spec):
+    """a codon with an ambiguity letter that no single amino acid covers: refused under strict translation wherever it stands (also
+    as the first codon), written X otherwise"""
+    table, pos, amb, sn = spec
+    codons = ["ATG", "GCT", "AAA", "CCC", "TAA"]
+    codons[pos] = amb
+    coding = "".join(codons)
+    plus = "CC" + coding + "G"
+    genome = plus if sn == "PLUS" else rc(plus).replace("N", "N")
+    a = 2 if sn == "PLUS" else 1
+    par = chrom_parent(it, genome, alphabet="NT_EXTENDED")
+    q = repo.fn(f"{CDS}.translate")
+    tt = it.enum("TranslationTable")[table]
+    out, n = [], 0
+    for lay, frames in (([(a, a + 15)], [0]), ([(a, a + 4), (a + 4, a + 15)], [0, 4 % 3] if sn == "PLUS" else [(15 - 4) % 3, 0])):
+        for strict in (True, False, None):
+            n += 1
+            kw = {"translation_table": tt}
+            if strict is not None:
+                kw["strict"] = strict
+            try:
+                k, v = run(it, q, [], kw, mk_cds(it, lay, S[sn], frames, par))
+            except Raised as ex:
+                k, v = "raise", ex.exc_name
+            got = v.fields.get("sequence") if k == "ok" and isinstance(v, Obj) else v
+            if strict in (True, None):
+                if not (k == "raise" and v == "ValueError"):
+                    out.append((f"strict translation refuses an ambiguous codon [{'first codon' if pos == 0 else 'later codon'}]",
+                                f"coding sequence {coding} ({sn}, exons {lay}, table {table}): translate({'strict=True' if strict else 'strict left out'}) -> {k}:{got}; "
+                                f"codon {pos} ({amb}) is not a strict codon: documented ValueError", q.qual))
+            else:
+                ref = list(translate_ref("".join(c if i != pos else "AAA" for i, c in enumerate(codons)), table))
+                ref[pos] = "X"
+                want = "".join(ref)
+                if k != "ok" or got != want:
+                    out.append((f"non-strict translation writes X [{'first codon' if pos == 0 else 'later codon'}]",
+                                f"coding sequence {coding} ({sn}, exons {lay}, table {table}): translate(strict=False) -> {k}:{got}; expected {want!r}", q.qual))
+    return n, out
+
+
 def rt_designed_translation(ctx, rule="C05.RT"):
+    amb_specs = [(t, pos, amb, sn) for t in ("DEFAULT", "PROKARYOTE") for pos in (0, 1, 3) for amb in ("NTG", "NNN", "ANG") for sn in ("PLUS", "MINUS")
+                 if not (pos and amb == "NTG" and sn == "MINUS")]
+    amb_results = pmap(_runner(ctx.repo, _ambiguous_case), amb_specs, min_items=4)
     specs = []
     every = sorted(set().union(*NCBI_STARTS.values()))
     for table, starts in sorted(NCBI_STARTS.items()):
@@ -389,7 +432,7 @@ def rt_designed_translation(ctx, rule="C05.RT"):
     for first in every:
         specs.append((None, first, "ATG", "PLUS"))
     ctx.r.floor(rule, "designed coding sequences", len(specs), 40)
-    results = pmap(_runner(ctx.repo, _designed_case), specs, min_items=4)
+    results = pmap(_runner(ctx.repo, _designed_case), specs, min_items=4) + amb_results
     _report(ctx, rule, results, [(f"{CDS}.translate", "start rule on codon 0 only, for every initiator under every table (and with the table "
                                   "argument omitted), both strands, one- and two-exon layouts")])
 
